@@ -678,15 +678,22 @@ struct FnEmit
                 // typed allocation: CBMC then creates an object of the struct type (field-sensitive, pointer fields keep
                 // their points-to sets) instead of an untyped byte array
                 Type* T = nullptr;
-                bool ok = true;
+                Type* S1 = nullptr;
+                bool ok = true, okS = true;
                 for (User* U : CB.users())
                     if (auto* BC = dyn_cast<BitCastInst>(U))
                     {
                         Type* E = BC->getType()->getPointerElementType();
-                        if (!E->isStructTy()) continue;
+                        if (!E->isStructTy())
+                        {
+                            // e.g. new stop_source() after SROA: the 8-byte object is only ever used as an i8** cell
+                            if (E->isSized() && !E->isIntegerTy(8) && C.DL.getTypeAllocSize(E) == N->getZExtValue()) { if (S1 && S1 != E) okS = false; S1 = E; }
+                            continue;
+                        }
                         if (T && T != E) ok = false;
                         T = E;
                     }
+                if (!T && S1 && okS) T = S1;
                 if (ok && T && T->isSized() && C.DL.getTypeAllocSize(T) == N->getZExtValue())
                 {
                     os << "  " << lhs << "(u8*)VERIF_NEW(" << C.ty(T) << ");\n";
